@@ -214,8 +214,13 @@ def _run_tee(e, case, log):
     def full(label):
         got = []
         it = iter(view)
-        for r in it:
-            got.append(canon_row(r))
+        try:
+            for r in it:
+                got.append(canon_row(r))
+        except Exception as ex:
+            raise _Bad('tee-raised', '%s %s raised %s: %s after %d rows; '
+                       'to%s writes the table without an error'
+                       % (what, label, type(ex).__name__, ex, len(got), fmt))
         del it
         log.add('pass', label, got)
         if got != want_rows:
@@ -237,6 +242,10 @@ def _run_tee(e, case, log):
                 got.append(canon_row(next(it)))
             except StopIteration:
                 break
+            except Exception as ex:
+                raise _Bad('tee-raised', '%s partial pass raised %s: %s; '
+                           'to%s writes the table without an error'
+                           % (what, type(ex).__name__, ex, fmt))
         if got != want_rows[:len(got)]:
             raise _Bad('rows-differ', '%s partial pass: yielded %r, the '
                        'wrapped table starts %r' % (what, got,
